@@ -49,9 +49,9 @@ CHECKS = {
  "C08": dict(tech="static analysis: error-provenance dataflow in jparse (ERR), abstract interpretation of the lexer over a finite cursor/width-typestate/first-rune domain (LEX), loop-variant classification and recursion inventory under Compile (LOOP/REC), registration-vs-switch exhaustiveness and explicit-panic inventory (TAB/PANIC), MustCompile/Compile/Parse shape rules; native index/slice bounds (BND: the Go compiler's prove pass asked via -d=ssa/check_bce on the current tree, then a difference-constraint prover, then reviewed one-site exceptions); unchecked type assertions (TA)",
    text="The panic and hang classes of Compile that are visible in the shape of the code, for every input string: only *jparse.Error values with declared types leave the parser, the lexer never rewinds by a stale width and never returns an empty non-EOF token (for every first rune), every loop under Compile consumes a token/rune per cycle or has a counted/range variant, the 'unexpected ...' panics are unreachable. Runtime index/slice panics (e.g. the signature parser on an unmatched bracket) and stack depth are NOT decided, and the level note says so. BND/TA: no index, slice or type-assertion panic under Compile outside the reviewed invariants.",
    ref="DESIGN.md §3 ERR, LEX, LOOP, TAB; §4 C08, BND, TA"),
- "C09": dict(tech="static analysis: NF dataflow over all of reach(Eval), dispatch exhaustiveness (TAB), explicit-panic inventory, loop-variant classification and recursion inventory (LOOP/REC), dominating guards (GUARD), interface-keyed map rule (HASH); reflect.Value.Index bounds (IDX); native index/slice bounds (BND: compiler prove pass via -d=ssa/check_bce + difference-constraint prover + reviewed one-site exceptions); unchecked type assertions (TA); read-only struct-field values (RO); nil reflect.Type (NILTYPE); reflective stores that could make a value cyclic (ACYC)",
-   text="The crash and hang classes that are visible in the shape of the code, decided for every program and input over the module call graph under Eval: unresolved reflect accessors, missing dispatch cases, loops without a variant, unguarded integer division / radix / repeat count, unhashable map keys. The remaining panic classes (type assertions, Set on zero Values, nil interfaces, stack depth) are not decided and are listed as such. Added classes: index/slice bounds (IDX, BND), unchecked type assertions (TA), values of unexported struct fields used as data (RO), methods on reflect.TypeOf(nil) (NILTYPE), and cycle creation through reflection (ACYC; the transform's update store is a known finding: `$count(($ ~> |$|{\"self\":$}|).**)` does not return).",
-   ref="DESIGN.md §3 NF, TAB, LOOP, GUARD, HASH; §4 C09, IDX, BND, TA, RO, NILTYPE, ACYC"),
+ "C09": dict(tech="static analysis: NF dataflow over all of reach(Eval), dispatch exhaustiveness (TAB), explicit-panic inventory, loop-variant classification and recursion inventory (LOOP/REC), dominating guards (GUARD), interface-keyed map rule (HASH); reflect.Value.Index bounds (IDX); native index/slice bounds (BND: compiler prove pass via -d=ssa/check_bce + difference-constraint prover + reviewed one-site exceptions); unchecked type assertions (TA); read-only struct-field values (RO); nil reflect.Type (NILTYPE); reflective stores that could make a value cyclic (ACYC); interprocedural kind-set dataflow for the preconditions of reflect.Value methods (KIND)",
+   text="The crash and hang classes that are visible in the shape of the code, decided for every program and input over the module call graph under Eval: unresolved reflect accessors, missing dispatch cases, loops without a variant, unguarded integer division / radix / repeat count, unhashable map keys. The remaining panic classes (type assertions, Set on zero Values, nil interfaces, stack depth) are not decided and are listed as such. Added classes: index/slice bounds (IDX, BND), unchecked type assertions (TA), values of unexported struct fields used as data (RO), methods on reflect.TypeOf(nil) (NILTYPE), kind/validity preconditions of reflect.Value methods (KIND), and cycle creation through reflection (ACYC; the transform's update store is a known finding: `$count(($ ~> |$|{\"self\":$}|).**)` does not return).",
+   ref="DESIGN.md §3 NF, TAB, LOOP, GUARD, HASH; §4 C09, IDX, BND, TA, RO, NILTYPE, ACYC, KIND"),
  "C18": dict(tech="static analysis: loop-variant classification incl. positive multiplicative scaling (LOOP class M), FIN on the number built-ins, radix/repeat guards (GUARD) + W restricted to the number built-ins",
    text="Termination of every loop under the number formatting functions (the clause behind the $formatNumber hang), finiteness of $power/$sqrt/$round results, and the exact [2,36] radix guard. Rounding, shortest form and picture rendering are value-level and not decided. A purity clause (write-target provenance W restricted to the property's functions) excludes caches and other state between calls.",
    ref="DESIGN.md §3 LOOP, FIN, GUARD; §4 C18, W"),
